@@ -33,6 +33,9 @@ or — for an UNKNOWN condition — FALSE -/
 def agrees (v : Value ν) (r : Res ν) : Prop :=
   r = valueRes v ∨ (v = .null ∧ r = .val (.bool false) false)
 
+instance [DecidableEq ν] (v : Value ν) (r : Res ν) : Decidable (agrees v r) := by
+  unfold agrees; exact inferInstance
+
 theorem agrees_exact {v : Value ν} {r : Res ν} (h : r = valueRes v) : agrees v r := Or.inl h
 
 /-! ### mode `.v` is mode `.w` (after the repairs) -/
